@@ -117,6 +117,24 @@ def conversations(tier):
         convs.append({'name': 'login-encrypted/%d' % proto, 'call': 'connect',
                       'allowed': [proto], 'fault_conn': 0,
                       'conns': [{'login': [enc, ['success']], 'play': pl}]})
+        # frames far larger than any buffer size a reader might special-case
+        # (a status response with a server icon, a big plugin message): cut
+        # near both ends and at every 89th offset in between
+        big_status = json.loads(status_json(proto))
+        big_status['favicon'] = 'data:image/png;base64,' + 'QUJD' * 1700
+        convs.append({'name': 'status-call[big-response]/%d' % proto,
+                      'call': 'status', 'allowed': None, 'fault_conn': 0,
+                      'ping': False, 'stride': 89,
+                      'conns': [{'status': {'mode': 'reply',
+                                            'json': json.dumps(big_status)}}]})
+        convs.append({'name': 'play-big-frame/%d' % proto, 'call': 'connect',
+                      'allowed': [proto], 'fault_conn': 0, 'stride': 89,
+                      'conns': [{'login': [['success']],
+                                 'play': [['ka', 7],
+                                          ['plugin', 'big:data', 'ab' * 5000],
+                                          ['ka', 8], ['expect', 2],
+                                          ['disconnect',
+                                           '{"text":"bye"}']]}]})
         # a kick that does not wait for the answers it is owed: the client's
         # own sends may fail while it winds the connection down
         convs.append({'name': 'play-kick/%d' % proto, 'call': 'connect',
@@ -183,7 +201,10 @@ def plan(tier):
         app = w.server.apps[sc['base'] + conv['fault_conn']]
         n = app.conn.s2c_sent
         info[conv['name']] = {'n': n, 'frames': app.out_frames}
+        stride = conv.get('stride')
         for k in range(n + 1):
+            if stride and 64 <= k <= n - 64 and k % stride:
+                continue
             cases.append((conv, k))
     _plan_cache[tier] = (cases, info)
     return _plan_cache[tier]
